@@ -117,6 +117,8 @@ class Packet:
     def add_attachment(self, attachment):
         if self.attachment_count <= len(self.attachments):
             raise ValueError('Unexpected binary attachment')
+        if not isinstance(attachment, (bytes, bytearray)):
+            raise ValueError('Binary attachment expected')
         self.attachments.append(attachment)
         if self.attachment_count == len(self.attachments):
             self.reconstruct_binary(self.attachments)
